@@ -122,6 +122,10 @@ def fieldVars : FormatField → List (File → File)
   | .xattr a => [fun f => { f with xattrs := [(a, cl!"val")] }, fun f => { f with xattrs := [] }]
   | .permissionsOctal => [fun f => { f with mode := 0o104755 }]
   | .diskSizeKilos => [fun f => { f with blocks := 7 }, fun f => { f with blocks := 0 }]
+  | .parents | .basename | .name | .nameWithoutStartingPoint =>
+    [fun f => { f with relPath := cl!"foo", absPath := cl!"/mnt/foo" },
+     fun f => { f with relPath := cl!"a/b/c/foo", absPath := cl!"/mnt/a/b/c/foo" },
+     fun f => { f with name := cl!"x", relPath := cl!"x", absPath := cl!"/mnt/x" }]
   | _ => []
 
 def actionVars : Action → List (File → File)
